@@ -878,7 +878,7 @@ fn main() {
                 break;
             }
             let mut r = Rng::for_case(opts.seed ^ 0x715F, i);
-            let src = listgen::ListGen::new(&mut r).program();
+            let src = if i % 3 == 2 { listgen::ListGen::new(&mut r).program_shapes() } else { listgen::ListGen::new(&mut r).program() };
             let p = match from_real::convert_source(&src) {
                 Ok(p) => p,
                 Err(e) => {
@@ -896,6 +896,9 @@ fn main() {
                 Verdict::Agree => {
                     agree += 1;
                     ev.hit("rectypes.agree");
+                    if src.starts_with("'s = ") {
+                        ev.hit("rectypes.family-shapes");
+                    }
                     if src.contains("'tree {") {
                         ev.hit("rectypes.with-tree-function");
                     }
